@@ -123,9 +123,9 @@ func (c *collector) flush(r *mon.Run) {
 		}
 		rep := map[string]any{
 			"input_base64":    base64.StdEncoding.EncodeToString(w.input),
-			"input_quoted":    fmt.Sprintf("%q", w.input),
+			"input_quoted":    fmt.Sprintf("%+q", w.input),
 			"inputs_with_key": w.count,
-			"replay_with":     "format.Parse(bytes.NewReader(input)) — see detail for the reader variant",
+			"replay_with":     "format.Parse(bytes.NewReader(input)) - see detail for the reader variant",
 		}
 		for kk, v := range w.extra {
 			rep[kk] = v
@@ -136,10 +136,10 @@ func (c *collector) flush(r *mon.Run) {
 
 func quoteTrunc(b []byte, n int) string {
 	if len(b) <= n {
-		return fmt.Sprintf("%q", b)
+		return fmt.Sprintf("%+q", b)
 	}
 	h := sha256.Sum256(b)
-	return fmt.Sprintf("%q…(%d bytes, sha256 %s)", b[:n], len(b), hex.EncodeToString(h[:6]))
+	return fmt.Sprintf("%+q...(%d bytes, sha256 %s)", b[:n], len(b), hex.EncodeToString(h[:6]))
 }
 
 // ---------------------------------------------------------------------------
@@ -155,8 +155,33 @@ type stats struct {
 	onlyAgeSamples                           [][]byte
 	part                                     string
 	br                                       *bytes.Reader
+	sampling                                 bool // this job contributes literal samples to the evidence
+	samples                                  []sampleRec
 	bufr                                     *bufio.Reader
 	acceptedByPart, rejectedByPart, inByPart map[string]int64
+}
+
+type sampleRec struct {
+	cls string
+	v   map[string]any
+}
+
+// sample keeps at most two literal cases per class from a designated job (so
+// the evidence samples do not depend on scheduling).
+func (s *stats) sample(cls string, v map[string]any) {
+	if !s.sampling {
+		return
+	}
+	n := 0
+	for _, r := range s.samples {
+		if r.cls == cls {
+			n++
+		}
+	}
+	if n < 2 {
+		v["class"] = cls
+		s.samples = append(s.samples, sampleRec{cls, v})
+	}
 }
 
 func newStats(part string) *stats {
@@ -197,8 +222,11 @@ func (s *stats) merge(r *mon.Run) {
 	for _, d := range s.distinct {
 		r.DistinctBytes(d)
 	}
+	for _, sr := range s.samples {
+		r.SampleN(sr.cls, 2, sr.v)
+	}
 	for _, b := range s.onlyAgeSamples {
-		r.SampleN("age-only", 3, map[string]any{"class": "accepted by age, not by the reference grammar, round trip holds (counted, not a violation)", "input": fmt.Sprintf("%q", b)})
+		r.SampleN("age-only", 3, map[string]any{"class": "accepted by age, not by the reference grammar, round trip holds (counted, not a violation)", "input": fmt.Sprintf("%+q", b)})
 	}
 	tabMu.Lock()
 	for t, m := range s.tabs {
@@ -238,11 +266,32 @@ func newOracle(r *mon.Run) *oracle {
 	return &oracle{r: r, c: &collector{best: map[string]*witness{}}}
 }
 
+// byteClass names the byte at b[i] coarsely enough that one defect yields a
+// handful of keys, finely enough that different defects get different keys.
 func byteClass(b []byte, i int) string {
 	if i >= len(b) {
-		return "end"
+		return "end-of-input"
 	}
-	return fmt.Sprintf("%q", b[i:i+1])
+	c := b[i]
+	switch {
+	case c == ' ':
+		return "SP"
+	case c == '\n':
+		return "LF"
+	case c == '\r':
+		return "CR"
+	case c == '\t':
+		return "TAB"
+	case c == '=' || c == '-' || c == '>':
+		return fmt.Sprintf("%+q", c)
+	case c >= 'A' && c <= 'Z' || c >= 'a' && c <= 'z' || c >= '0' && c <= '9' || c == '+' || c == '/':
+		return "base64-char"
+	case c > 32 && c < 127:
+		return "other-VCHAR"
+	case c >= 128:
+		return "byte>=0x80"
+	}
+	return "control-char"
 }
 
 func firstDiff(a, b []byte) int {
@@ -313,12 +362,12 @@ func (o *oracle) parse(st *stats, x []byte, rd rdr, rng *rand.Rand) (accepted bo
 	if err != nil {
 		if hdr != nil {
 			o.c.add("rejected-but-header-returned", x, ex, func() string {
-				return fmt.Sprintf("Parse returned error %q together with a non-nil *Header (%d stanzas), reader=%s", err, len(hdr.Recipients), rd.name)
+				return fmt.Sprintf("Parse returned error %+q together with a non-nil *Header (%d stanzas), reader=%s", err, len(hdr.Recipients), rd.name)
 			})
 		}
 		if payload != nil {
 			o.c.add("rejected-but-reader-returned", x, ex, func() string {
-				return fmt.Sprintf("Parse returned error %q together with a non-nil payload reader (%T), reader=%s", err, payload, rd.name)
+				return fmt.Sprintf("Parse returned error %+q together with a non-nil payload reader (%T), reader=%s", err, payload, rd.name)
 			})
 		}
 		return false, nil, err
@@ -345,7 +394,7 @@ func (o *oracle) parse(st *stats, x []byte, rd rdr, rng *rand.Rand) (accepted bo
 	if !bytes.HasPrefix(x, m) {
 		i := firstDiff(x, m)
 		key := fmt.Sprintf("reserialised-header-differs:input %s where canonical form has %s", byteClass(x, i), byteClass(m, i))
-		ex["marshalled"] = fmt.Sprintf("%q", m)
+		ex["marshalled"] = fmt.Sprintf("%+q", m)
 		ex["first_difference_at"] = i
 		o.c.add(key, x, ex, func() string {
 			return fmt.Sprintf("Parse accepted the input but Marshal(header) differs from it at byte %d (input %s, canonical %s): two spellings of one header; reader=%s; Marshal=%s",
